@@ -33,10 +33,11 @@ const (
 	opWrapU
 	opWrapW
 	opFlush
+	opHeader304
 	c11NumOps
 )
 
-var c11Names = [...]string{"PutS(k1,n1)", "PutS(k2,n2)", "DelS(k1)", "DelAllS(keep)", "PutC(rm,c1)", "DelC(rm)", "ReadS(k1)", "ReadC(rm)", "WriteHeader(200)", "WriteHeader(302)", "Write(x)", "WrapU", "WrapW", "FlushIfFlusher"}
+var c11Names = [...]string{"PutS(k1,n1)", "PutS(k2,n2)", "DelS(k1)", "DelAllS(keep)", "PutC(rm,c1)", "DelC(rm)", "ReadS(k1)", "ReadC(rm)", "WriteHeader(200)", "WriteHeader(302)", "Write(x)", "WrapU", "WrapW", "FlushIfFlusher", "WriteHeader(304)"}
 
 type c11Entry struct {
 	kind string // S | C | H | B
@@ -171,6 +172,9 @@ func c11Run(first int, maxLen int, dl time.Time) engine.UnitResult {
 				wrote = true
 			case opHeader302:
 				w.WriteHeader(302)
+				wrote = true
+			case opHeader304:
+				w.WriteHeader(304) // a revalidation answer carries the state changes like any other
 				wrote = true
 			case opWrite:
 				w.Write([]byte("x"))
@@ -342,7 +346,7 @@ func (nopLogger) Error(string) {}
 func init() {
 	engine.Register(&engine.Property{
 		ID: "C11", Level: "exploration",
-		Rule: "all handler programs up to the tier's length over 14 operations (put/del/delete-all on the session, put/del on the cookie store, reads, WriteHeader 200/302, Write, two kinds of response-writer wrapper, Flush through the http.Flusher type assertion when the writer offers it) executed inside the real LoadClientStateMiddleware with recording stores; compared with reference list semantics; non-trivial classes = distinct (#session events, #cookie events, wrote?) outcomes",
+		Rule: "all handler programs up to the tier's length over 15 operations (put/del/delete-all on the session, put/del on the cookie store, reads, WriteHeader 200/302/304, Write, two kinds of response-writer wrapper, Flush through the http.Flusher type assertion when the writer offers it) executed inside the real LoadClientStateMiddleware with recording stores; compared with reference list semantics; non-trivial classes = distinct (#session events, #cookie events, wrote?) outcomes",
 		Units: func(tier string) []engine.Unit {
 			maxLen := 6
 			if tier == "thorough" {
